@@ -56,3 +56,25 @@ def handleQuery (s : DState) (toks : List String) : Option Out :=
 
 end Drv
 end Hpo
+
+namespace Hpo
+namespace Drv
+open Proto
+
+/-- `anc2 <slot>`: the four id-level ancestor queries for all ordered pairs of the first 14 terms;
+the model follows the code for `all_union_ancestor_ids` (known finding K1) and prints the same
+`known-finding` line as the implementation when the terms themselves are missing from it. -/
+def handleAnc2 (s : DState) (toks : List String) : Option Out :=
+  match toks with
+  | ["anc2", slot] => withSlot s slot fun o =>
+      let ts := (sortTerms o.terms).take 14
+      let lines := ts.flatMap fun a => ts.map fun b =>
+        s!"A2 {a.id} {b.id} c={showIds (a.commonAncestorIds b)} ac={showIds (a.allCommonAncestorIds b)} u={showIds (a.unionAncestorIds b)} au={showIds (a.allUnionAncestorIds b)}"
+      let k1 := ts.any fun a => ts.any fun b =>
+        !((a.allUnionAncestorIds b).elem a.id) || !((a.allUnionAncestorIds b).elem b.id)
+      lines ++ (if k1 then ["known-finding K1 all_union_ancestor_ids(a, b) does not contain a and b"] else [])
+        ++ ["oracle ok"]
+  | _ => none
+
+end Drv
+end Hpo
